@@ -212,6 +212,15 @@ def assembly(ctx, g, dims, listname, periodic=False, edit_side=None):
         ctx.same_term('%s/matrixpde/M/%d_%d' % (tag, i, j), scen.mat_get(solC.M, i, j), scen.mat_get(solA.M, i, j))
     for i in range(n):
         ctx.same_term('%s/matrixpde/RHS/%d' % (tag, i), solC.RHS[i], solA.RHS[i])
+    # solveMatrixPDE's default path hands the identical system to scipy's spsolve name
+    solD = scen.Solver(ctx)
+    with patched_spsolve(solD):
+        resD = pf.solveMatrixPDE(m, Mh, Rh)
+    ctx.fact(tag + '/matrixpde/default_solver_called_once', solD.calls == 1 and resD.domain is m)
+    same = all((sr.lift(scen.mat_get(solD.M, i, j)) is sr.lift(scen.mat_get(solC.M, i, j))) if ctx.sym else
+               (float(scen.mat_get(solD.M, i, j)) == float(scen.mat_get(solC.M, i, j))) for (i, j) in keys)
+    sameR = all((sr.lift(solD.RHS[i]) is sr.lift(solC.RHS[i])) if ctx.sym else (float(solD.RHS[i]) == float(solC.RHS[i])) for i in range(n))
+    ctx.fact(tag + '/matrixpde/default_solver_same_system', same and sameR)
 
 
 def linearity(ctx, g, dims):
